@@ -52,6 +52,9 @@ type session struct {
 	link   *link
 	chOpen time.Duration
 	noRead bool // the peer does not read during this session
+	// the silence of an idle ending begins in the middle of a frame (stream transports)
+	midFrame bool
+	partialT time.Duration
 }
 
 func isTimeout(err error) bool {
@@ -129,11 +132,18 @@ func c14Body() func(h []dsim.Rec) {
 		if i == ns-1 {
 			s.ending = endStay
 		}
+		if s.ending == endIdle && (kind == epTCPClient || kind == epTCPServer) && dsim.Choose(3) == 0 {
+			s.midFrame = true
+		}
 		sessions = append(sessions, s)
 	}
 	plan := ""
 	for _, s := range sessions {
-		plan += fmt.Sprintf("[fail=%d frames=%d end=%s]", s.fails, s.frames, endNames[s.ending])
+		en := endNames[s.ending]
+		if s.midFrame {
+			en += "-mid-frame"
+		}
+		plan += fmt.Sprintf("[fail=%d frames=%d end=%s]", s.fails, s.frames, en)
 	}
 	dsim.Record("plan", epNames[kind]+" "+plan, nil, int64(ns))
 
@@ -182,7 +192,11 @@ func c14Body() func(h []dsim.Rec) {
 		connIdx++
 	}
 	udpIdx := 0
+	udpSession := map[int]int{} // local port of the node's k-th socket -> k
 	e.w.OnNewUDP = func(c *world.UDPConn) {
+		e.mu.Lock()
+		udpSession[c.Port()] = udpIdx
+		e.mu.Unlock()
 		if udpIdx < len(sessions) && sessions[udpIdx].ending == endReadErr {
 			c.FailReadAt(sessions[udpIdx].readK+1, errInjectedRead)
 			count("fault:plan-read-error")
@@ -198,7 +212,15 @@ func c14Body() func(h []dsim.Rec) {
 	runSession := func(l *link) {
 		e.mu.Lock()
 		k := served
-		served++
+		if kind == epUDPClient {
+			// the plan is laid over the node's sockets: a socket that came and went without the
+			// peer ever seeing a datagram from it (possible under stall injection: it expires
+			// before the first heartbeat gets out) still used up its place in the plan
+			if i, ok := udpSession[l.nodePort]; ok && i >= k {
+				k = i
+			}
+		}
+		served = k + 1
 		e.mu.Unlock()
 		if k >= len(sessions) {
 			return
@@ -261,6 +283,15 @@ func c14Body() func(h []dsim.Rec) {
 			case endIdle:
 				count("fault:plan-silence")
 				// stay silent; the node expires the channel
+				if s.midFrame {
+					// ... the silence begins after the first bytes of a frame
+					if l.sendPartial() == nil {
+						dsim.EnsureReleased("session-partial")
+						s.partialT = e.now()
+						l.lastSend = s.partialT
+						count("fault:plan-silence-mid-frame")
+					}
+				}
 			}
 		})
 	}
@@ -385,6 +416,10 @@ func c14Body() func(h []dsim.Rec) {
 		// (1) the close event carries the cause
 		for i, s := range sessions {
 			if s.link == nil {
+				if kind == epUDPClient && stalls && i < udpIdx {
+					count("cov:udp-socket-never-seen-by-peer")
+					continue
+				}
 				if clientType {
 					dsim.Failf("reconnect", "session %d of %d never came up: after %d failed attempt(s) the %s endpoint did not open a fresh channel (plan %s)", i, ns, s.fails, epNames[kind], plan)
 				} else {
@@ -437,7 +472,7 @@ func c14Body() func(h []dsim.Rec) {
 			}
 			if s.ending == endIdle && !stalls {
 				// no earlier than a full idle period after the last byte was sent
-				if len(s.link.sent) > 0 && ci.closeT < s.link.lastSend+idle {
+				if (len(s.link.sent) > 0 || s.partialT > 0) && ci.closeT < s.link.lastSend+idle {
 					dsim.Failf("idle-expiry", "session %d: the peer sent its last byte at t=%v, idle timeout %v, but the channel was closed at t=%v (too early)", i, s.link.lastSend, idle, ci.closeT)
 					return
 				}
@@ -446,6 +481,12 @@ func c14Body() func(h []dsim.Rec) {
 				}
 				// (with a slow consumer the reader is held back by undelivered events and arms its
 				// deadline late: the upper bound only applies when the application receives at once)
+				if s.partialT > 0 && fastConsumer && ci.closeT > s.link.lastSend+idle+time.Second {
+					// the reader was inside a frame when the silence began: the read that times out
+					// is the one armed when the last byte arrived
+					dsim.Failf("idle-expiry", "session %d: the peer fell silent in the middle of a frame at t=%v, idle timeout %v, but the channel stayed open until t=%v", i, s.link.lastSend, idle, ci.closeT)
+					return
+				}
 				if !stalls && fastConsumer && ci.closeT > s.link.lastSend+2*idle+time.Second {
 					dsim.Failf("idle-expiry", "session %d: silent since t=%v, idle timeout %v, still open until t=%v", i, s.link.lastSend, idle, ci.closeT)
 					return
@@ -781,7 +822,7 @@ func init() {
 			p := r.Probes
 			return p["fault:read-error"]+p["fault:peer-close"]+p["fault:peer-reset"]+p["fault:dial-refused"]+p["fault:dial-hang"]+p["fault:dial-fail"]+p["fault:serial-open-fail"]+p["fault:plan-silence"] > 0
 		},
-		ProbeUniverse: []string{"fault:read-error", "fault:peer-close", "fault:peer-reset", "fault:dial-refused", "fault:dial-hang", "fault:dial-fail",
+		ProbeUniverse: []string{"fault:plan-silence-mid-frame", "fault:read-error", "fault:peer-close", "fault:peer-reset", "fault:dial-refused", "fault:dial-hang", "fault:dial-fail",
 			"fault:serial-open-fail", "fault:plan-silence", "fault:plan-read-error", "cov:keep-alive-20-periods", "cov:keep-alive-then-expiry"},
 		Real: []string{"gomavlib (Node, Channel, channelProvider, client/server/serial endpoints; instrumented with scheduling points only)", "pkg/timednetconn", "pkg/frame", "pkg/message", "pkg/dialect", "pkg/streamwriter"},
 		Stub: []string{"goroutine scheduler (dsim)", "clock (synctest)", "net sockets, listeners, dialer", "pion UDP listener", "serial port", "crypto/rand"},
